@@ -25,6 +25,8 @@ class AlphaVectorPolicy(ValueBasedTabularPOMDPPolicy):
         elif isinstance(belief, Belief):
             ss, b = belief
             assert len(ss) == len(b)
+            s_prob = dict(zip(ss, b))
+            b = [s_prob.get(s, 0.0) for s in self.pomdp.state_list]
         elif isinstance(belief, (list, tuple, np.ndarray)):
             b = belief
         return b
